@@ -934,6 +934,14 @@ func main() {
 			note("callMethodParams: case *Parameter not found")
 		case containsCall(&ast.BlockStmt{List: body}, "p.SetValue"):
 			methParam = pk
+		case containsCall(&ast.BlockStmt{List: body}, "bindTypedParameter"):
+			// the binding was factored into a helper shared with generic constructors: the helper
+			// itself must end in Parameter.SetValue for every parameter that is not a type parameter
+			if h := fn("call_object_method.go", "", "bindTypedParameter"); h != nil && containsCall(h.Body, "p.SetValue") {
+				methParam = pk
+			} else {
+				note("callMethodParams: bindTypedParameter does not call p.SetValue")
+			}
 		default:
 			methParam = ".unchecked"
 		}
